@@ -8,6 +8,8 @@ def check(ctx):
     rep.floor("display tags on the all-miss path of dict_to_dis", n, 8)
     dis.check_regex(ctx, rep)
     npush = dis.check_replacer_pushes(ctx, rep)
+    nrk = dis.check_replacer_kinds(ctx, rep)
+    rep.floor("replacer kind-dispatch obligations", nrk, 2)
     rep.floor("append sites of the macro replacer", npush, 4)
     E = [b.id for b in prog.bodies.values() if b.short in (
         "haystack::val::dict::dict_to_dis", "haystack::val::dis_macro::dis_macro",
